@@ -360,7 +360,96 @@ def entry_stream(res, rng, entries, excs):
     return cases, meta
 
 
-def record(res, cases, meta, excs, e, d, value, tag, fitted, skip, obs, text):
+def history_stream(res, rng, entries, excs, cases, meta):
+    """fitted states reached through a history (fit -> refit on a narrower / wider / shifted category range, gridsearch
+    then fit, fit then gridsearch on other data): an unseen category *relative to the last training data* must be
+    rejected by every query method, a category of the last training data must be accepted."""
+    import pygam
+    import pygam.pygam as _pg
+    from pygam import s, l, f
+    _pg.ProgressBar = lambda *a, **k: (lambda it: it)
+
+    def data(levels, n):
+        X = np.empty((n, 3))
+        X[:, 0] = [rng.randint(0, 64) / 64.0 for _ in range(n)]
+        X[:, 1] = [rng.randint(-32, 32) / 16.0 for _ in range(n)]
+        X[:, 2] = [levels[i % len(levels)] for i in range(n)]
+        eta = 0.5 + X[:, 0] - 0.25 * X[:, 1] + 0.125 * (X[:, 2] % 2)
+        noise = np.array([rng.randint(-8, 8) / 32.0 for _ in range(n)])
+        return X, eta, noise
+
+    def target(cls, eta, noise):
+        if cls == 'LogisticGAM':
+            return ((eta + 2 * noise) > np.median(eta)).astype(float)
+        if cls == 'PoissonGAM':
+            return np.floor(np.exp(eta) + 4 * np.abs(noise))
+        if cls == 'GammaGAM':
+            return np.exp(eta + noise)
+        if cls == 'InvGaussGAM':
+            return np.exp(eta / 2 + noise / 2) + 0.5
+        return eta + noise
+    histories = [
+        ('fit(0..4) -> fit(0..2)', [('fit', [0, 1, 2, 3, 4], 30), ('fit', [0, 1, 2], 24)]),
+        ('fit(0..2) -> fit(0..4)', [('fit', [0, 1, 2], 24), ('fit', [0, 1, 2, 3, 4], 30)]),
+        ('fit(0..2) -> fit(2..4)', [('fit', [0, 1, 2], 24), ('fit', [2, 3, 4], 27)]),
+        ('gridsearch(0..4) -> fit(1..2)', [('gridsearch', [0, 1, 2, 3, 4], 30), ('fit', [1, 2], 24)]),
+        ('fit(0..4) -> gridsearch(0..2)', [('fit', [0, 1, 2, 3, 4], 30), ('gridsearch', [0, 1, 2], 24)]),
+    ]
+    classes = sorted({e['cls'] for e in entries})
+    if res.tier == 'quick':
+        histories = histories[:3] + [histories[3 + (res.seed % 2)]]
+    for cls in classes:
+        if not hasattr(pygam, cls):
+            continue
+        for hname, steps in histories:
+            gam = getattr(pygam, cls)(s(0, n_splines=5) + l(1) + f(2))
+            trained = {}
+            try:
+                with warnings.catch_warnings(), contextlib.redirect_stderr(io.StringIO()), contextlib.redirect_stdout(io.StringIO()):
+                    warnings.simplefilter('ignore')
+                    for op, levels, n in steps:
+                        X, eta, noise = data(levels, n)
+                        y = target(cls, eta, noise)
+                        if op == 'fit':
+                            gam.fit(X, y)
+                        else:
+                            kw = dict(lam=[0.5, 5.0])
+                            if 'progress' in inspect.signature(gam.gridsearch).parameters:
+                                kw['progress'] = False
+                            gam.gridsearch(X, y, **kw)
+                        trained[n] = (X, y, levels)
+            except ValueError as ex:
+                res.count('history:setup ValueError')
+                continue
+            # the data the kept model was trained on last (gridsearch may keep the model it started from)
+            n_last = int(gam.statistics_['n_samples'])
+            if n_last not in trained:
+                res.count('history:cannot tell the last training data')
+                continue
+            X, y, levels = trained[n_last]
+            lo, hi = min(levels), max(levels)
+            probes = [('unseen-above', hi + 1, False), ('unseen-below', lo - 1, False), ('seen-top', hi, True)]
+            if lo > 0:
+                probes.append(('formerly-seen-%d' % 0, 0, False))
+            if 4 > hi:
+                probes.append(('formerly-seen-%d' % 4, 4, False))
+            minfo = dict(y=y, fitted=gam, new=None, bad=None)
+            for e in entries:
+                if e['cls'] != cls or e['fitting'] or e['arg'] not in ('X', 'sample_at_X'):
+                    continue
+                base = X if e['arg'] == 'X' else X[:7]
+                for ptag, level, ok in probes:
+                    value = base.copy()
+                    value[len(value) // 2, 2] = float(level)
+                    d = dict(cont='CNdarray', dt='DFloat', len_ok=True, width_ok=True, dom_ok=True, cat_ok=ok,
+                             kind=None if ok else 'KCat')
+                    obs, text = observe(call_plan(e, minfo, X, 'fitted', value, True, model=gam), X)
+                    record(res, cases, meta, excs, e, d, value, '%s after %s' % (ptag, hname), True, e['meth'] == 'sample', obs, text,
+                           extra=dict(history=hname, category=level, last_training_levels=levels))
+                    res.count('history:%s' % ('accepted-level' if ok else 'unseen-level'))
+
+
+def record(res, cases, meta, excs, e, d, value, tag, fitted, skip, obs, text, extra=None):
     elems = classify(value)
     cases.append('(mk_case "%s" "%s" %s %s %s %s %s)' % (e['cls'], e['meth'], ARGK[e['arg']], desc_coq(d, elems),
                                                        coq_bool(fitted), coq_bool(skip), obs))
@@ -369,6 +458,8 @@ def record(res, cases, meta, excs, e, d, value, tag, fitted, skip, obs, text):
                loop_skipped=skip if e['meth'] in ('sample', 'fit_quantile') else None,
                value=np.asarray(value, dtype=float).tolist() if np.asarray(value).size <= 12 else
                'base %s with %s (see harness/props/c11.py variants, seed %d)' % (e['arg'], tag, res.seed))
+    if extra:
+        inp.update(extra)
     m = dict(input=inp, observed=text, obs=obs)
     meta.append(m)
     key = (e['cls'], e['meth'], e['arg'], tag, fitted, skip)
@@ -397,10 +488,12 @@ def record(res, cases, meta, excs, e, d, value, tag, fitted, skip, obs, text):
                 what='%s.%s on an unfitted model did not raise the not-fitted AttributeError' % (e['cls'], e['meth']),
                 input=inp, expected='AttributeError (GAM has not been fitted)' + ('' if kind is None else ' or ValueError'),
                 observed=text, finding=None))
-    elif kind is None and state_ok and e['fitting'] and obs not in ('OVE', 'ORetFinite') and d['dt'] == 'DStr':
+    elif kind is None and e['meth'] == 'fit_quantile' and e['arg'] == 'y' and not fitted and d['dt'] == 'DStr' \
+            and obs == 'OTypeError' and "'greater'" in text:
         # valid numbers written as strings are outside the property (it speaks of invalid data and of fits on valid
-        # *numeric* data): counted only.  (PoissonGAM.fit / gridsearch: TypeError from y / exposure.)
-        res.count('valid-numeric-strings:%s.%s:%s' % (e['cls'], e['meth'], obs))
+        # *numeric* data): counted only, and only here -- fit_quantile on an unfitted model validates a copy of y inside
+        # self.fit(..) and then compares predict(X) > y with the strings as passed.  Every other entry point must accept them.
+        res.count('valid-numeric-strings:%s.fit_quantile(unfitted):OTypeError' % e['cls'])
     elif kind is None and state_ok and e['fitting'] and obs not in ('OVE', 'ORetFinite'):
         # last sentence of the property, for the entry points that fit
         fid = None
@@ -608,7 +701,7 @@ def run_generic(res, rep, dname, lv, lname, tag, X, y, terms):
 
 def regression_probes(res, rng):
     """former witnesses of repaired defects (S20 logit link with a non-binomial distribution, S22 fit_quantile weights
-    after an immediate break): must now satisfy the property; an untagged violation otherwise."""
+    after an immediate break, S24 PoissonGAM arithmetic on y before validation): must now satisfy the property; an untagged violation otherwise."""
     from pygam import GAM, ExpectileGAM, s
     n = N
     X = np.array([[rng.randint(0, 64) / 64.0] for _ in range(n)])
@@ -622,6 +715,40 @@ def regression_probes(res, rng):
             res.violations.append(dict(
                 what='regression of C11-S20: GAM(distribution=%s, link=logit).fit on valid targets in [0, 1]' % dname,
                 input=dict(cls='GAM', distribution=dname, link='logit', seed=res.seed, X=X.tolist(), y=yy.tolist()),
+                expected='ValueError or a finite model', observed=text, finding=None))
+    # S24: PoissonGAM.fit / gridsearch divided y by the exposure before validating it
+    from pygam import PoissonGAM
+    yc = np.floor(1 + 4 * X[:, 0] + np.arange(n) % 3)
+    ys_inf = [repr(float(v)) for v in yc]
+    ys_inf[7] = 'inf'
+    ys_nan = [repr(float(v)) for v in yc]
+    ys_nan[n - 1] = 'nan'
+    y_none = yc.tolist()
+    y_none[3] = None
+    y_obj = yc.astype(object)
+    y_obj[5] = float('-inf')
+    for tag, yb in (('inf-in-string-list', ys_inf), ('nan-in-string-list', ys_nan), ('None-in-list', y_none),
+                    ('-inf-in-object-ndarray', y_obj)):
+        for meth in ('fit', 'gridsearch'):
+            g = PoissonGAM(s(0, n_splines=5))
+            call = (lambda g=g, yb=yb: g.fit(X, yb)) if meth == 'fit' else (lambda g=g, yb=yb: g.gridsearch(X, yb, lam=[0.5, 5.0]))
+            obs, text = observe(call, X)
+            res.case(('regression-S24', meth, tag), nontrivial=True)
+            res.count('regression-S24:%s' % obs)
+            if obs != 'OVE':
+                res.violations.append(dict(
+                    what='regression of C11-S24: PoissonGAM.%s with y=<%s>' % (meth, tag),
+                    input=dict(cls='PoissonGAM', method=meth, y=[None if v is None else str(v) for v in list(yb)], seed=res.seed,
+                               X=X.tolist()),
+                    expected='ValueError', observed=text, finding=None))
+    for tag, yb in (('valid-string-list', [repr(float(v)) for v in yc]), ('valid-object-ndarray', yc.astype(object))):
+        obs, text = observe(lambda yb=yb: PoissonGAM(s(0, n_splines=5)).fit(X, yb), X)
+        res.case(('regression-S24', 'fit', tag), nontrivial=True)
+        res.count('regression-S24:%s' % obs)
+        if obs not in ('OVE', 'ORetFinite'):
+            res.violations.append(dict(
+                what='regression of C11-S24: PoissonGAM.fit with y=<%s>' % tag,
+                input=dict(cls='PoissonGAM', method='fit', y=[str(v) for v in list(yb)], seed=res.seed, X=X.tolist()),
                 expected='ValueError or a finite model', observed=text, finding=None))
     y = 0.5 + X[:, 0] + np.array([rng.randint(-8, 8) / 32.0 for _ in range(n)])
     ex = ExpectileGAM(s(0, n_splines=5)).fit(X, y)
@@ -683,6 +810,7 @@ def run(res):
             entries = []
     excs = load_exceptions()
     cases, meta = entry_stream(res, rng, entries, excs)
+    history_stream(res, common.rng_for(res.seed, PROP, 'history'), entries, excs, cases, meta)
     nasty_fits(res, rng)
     generic_gam_fits(res, common.rng_for(res.seed, PROP, 'generic'))
     regression_probes(res, common.rng_for(res.seed, PROP, 'regression'))
